@@ -586,7 +586,21 @@ def rule_io(cx):
                         tested = any(c[0] == 'cmp' and c[1] == '==' and sym.contains(c[2], e.result) and c[3] == C(SUCCESS) for c in p.cond_terms())
                         if not tested:
                             bad = 'SUCCESS returned without testing the status of %s' % e.name
-        ck.verdict(bad is None, 'C11.c', fn, cx.where(fn), 'a constant SUCCESS is returned only after every internal step reported success' if bad is None else bad)
+            # a step that reported failure: what is returned must be that failure (or a constant error),
+            # never a value that the path conditions pin to SUCCESS
+            for e in p.calls():
+                if e.name not in steps:
+                    continue
+                failed = [c for c in p.cond_terms() if c[0] == 'cmp' and c[1] == '!=' and strip_cast(c[2]) in (e.result, ('fv', e.result, 'access')) and c[3] == C(SUCCESS)]
+                if not failed or p.end != 'return' or p.ret is None:
+                    continue
+                r = strip_cast(p.ret)
+                if r == strip_cast(failed[0][2]) or r == e.result or (sym.is_c(r) and r[1] != SUCCESS):
+                    continue
+                pinned = any(c[0] == 'cmp' and c[1] == '==' and strip_cast(c[2]) == r and c[3] == C(SUCCESS) for c in p.cond_terms())
+                bad = ('%s reported a failure (%s) but the function returns %s%s' %
+                       (e.name, fmt(failed[0]), fmt(p.ret), ', which this path has just tested to be SUCCESS: the I/O error is reported as success' if pinned or r == C(SUCCESS) else ''))
+        ck.verdict(bad is None, 'C11.c', fn, cx.where(fn), 'SUCCESS is returned only after every internal step reported success; a failed step\'s status is what is returned' if bad is None else bad)
 
 
 def rule_order(cx):
